@@ -311,6 +311,20 @@ class Check:
                         f.write(raw[8:8 + n])
         if case is None:
             raise RuntimeError("harness %s failed (rc=%s) without a case file:\n%s" % (label, rc, r["output"][-3000:]))
+        if os.path.basename(case) == "crash.case" and u.get("kind", "gen") == "gen":
+            # the process died (sanitizer abort, signal): run the same generation again with every case isolated in a
+            # forked child, so that the crash becomes an ordinary failure that rapidcheck shrinks
+            out2 = r["out"] + ".shrink"
+            os.makedirs(out2, exist_ok=True)
+            cmd2 = [a.replace(r["out"], out2) if a == r["out"] else a for a in r["cmd"]] + ["--opt", "isolate=1"]
+            try:
+                subprocess.run(cmd2, stdout=subprocess.DEVNULL, stderr=subprocess.DEVNULL, env=self.env, timeout=900, cwd=self.rundir)
+                shrunk = os.path.join(out2, "fail.case")
+                if os.path.exists(shrunk):
+                    case = shrunk
+                    self.notes.append("%s: crash case minimised by isolated re-run" % label)
+            except subprocess.TimeoutExpired:
+                pass
         data = open(case, "rb").read()
         fp = hashlib.sha256(data).hexdigest()[:12]
         dst_dir = os.path.join(VERIF, "replays", self.prop)
